@@ -1033,7 +1033,7 @@ class Interp:
         if isinstance(f, FuncV):
             return self.call_func(f, args, kw)
         if isinstance(f, Opaque):
-            return None
+            return Opaque(f.name + "()")
         if callable(f) and getattr(f, "__module__", None) in PURE_STDLIB + ("_binascii", "_sre"):
             if any(isinstance(x, (Obj, Term, Opaque, FuncV, ClassV)) for x in list(args) + list(kw.values())):
                 raise Unsupported(f"library call {f!r} on abstract value")
